@@ -217,6 +217,13 @@ class SymFactory(object):
         from .sym import mk_eq
         return mk_eq(a, b)
 
+    def forall(self, n, cond, name='q'):
+        """forall i in range(n): cond(i)  -- generic-index form (a fresh Int constant)."""
+        self._q = getattr(self, '_q', 0) + 1
+        g = z3.Int('%s!%d' % (name, self._q))
+        from .sym import mk_and, mk_cmp
+        return self.implies(mk_and(g >= 0, mk_cmp('<', g, n)), cond(g))
+
     def lam(self, src, **free):
         """A Python lambda (source text) closed over the given free variables."""
         import ast
@@ -445,6 +452,9 @@ class ConcFactory(object):
 
     def eq_bool(self, a, b):
         return bool(a) == bool(b)
+
+    def forall(self, n, cond, name='q'):
+        return all(cond(i) for i in range(int(n)))
 
     def file(self, name, value):
         import os
